@@ -138,9 +138,10 @@ def compute_status(model, mode, ents=None):
             continue
         C = chain(n, e)
         CE = [allents[x] for x in C]
-        if any(x.get("tmpl_self") for x in CE):
+        if any(x.get("tmpl_self") and not x.get("inst") for x in CE):
             st[n] = "mustnot"            # inside an uninstantiated template
             continue
+        in_inst = bool(e.get("inst")) or any(x.get("inst") for x in CE)
         if any(x["kind"] == "nclass" and x["ownvis"] >= 2 and x["ownvis"] > minv for x in CE):
             st[n] = "mustnot"            # inside a protected/private nested class
             continue
@@ -183,6 +184,8 @@ def compute_status(model, mode, ents=None):
             v = "must"
         else:
             v = "unspec"
+        if in_inst and v == "must":
+            v = "unspec"                 # member of a template instantiated by a typedef ("picks up most ...")
         if v == "must" and any(odd_ctx(allents, r) for r in e["refs"]):
             v = "unspec"                 # its signature names a type whose access the listed region findings distort
         if groups and v != "mustnot":
@@ -596,6 +599,9 @@ def main(chk):
             "private type reached through an alias": lambda f: f.startswith("absent:privtype,") and "alias:" in f,
             "exported signature through an alias": lambda f: f.startswith("present:") and "alias:" in f,
             "macro identically re-#defined into an exported place": lambda f: f.startswith("present:") and "redef-same:" in f,
+            "T&& method of a typedef-instantiated template": lambda f: f.startswith("absent:rvref,method,inst-template"),
+            "ignoreinvolved argument of an instantiated template":
+                lambda f: f.startswith("absent:ign_involved,") and "inst-template" in f,
             "macro re-#defined into a non-exported place": lambda f: f.startswith("absent:") and ",macro,redef-" in f}
     chk.extra["family_rows"] = {k: sum(1 for f in chk.features if fn(f)) for k, fn in need.items()}
     missing_rows = [t for t in visgen.TAGS if t != "unspec" and not chk.extra["judged_per_tag"].get(t)]
